@@ -157,6 +157,12 @@ def build(prop: str, gen_deps: Iterable[str] = (), extra_modules: Iterable[str] 
                 raise Infra(f"audit failed:\n{out[-3000:]}")
             for m in re.finditer(r"AUDIT (\S+) ::(.*)", out):
                 theorems[m.group(1)] = [a.strip() for a in m.group(2).split(",") if a.strip()]
+        # thorough tier: the compiled modules are re-checked by the toolchain's independent checker
+        if os.environ.get("VERIF_TIER_EFFECTIVE") == "thorough" and mods:
+            rc, out = sh(["lake", "env", "leanchecker"] + mods, cwd=LEAN, timeout=3000)
+            log.append(f"leanchecker {' '.join(mods)}: rc={rc}\n{out[-2000:]}")
+            if rc != 0:
+                broken.append("leanchecker:" + ",".join(mods))
         expected = source_theorems(props_mod) + source_theorems(oblig_mod)
         hits = forbidden_scan()
         fcntl.flock(lock, fcntl.LOCK_UN)
@@ -343,7 +349,8 @@ def finish(run: Run, b: BuildResult, level_rule: str, assumptions: list[str], ex
     cov = {
         "obligations": len(b.expected),
         "discharged": len(discharged),
-        "checker_cmd": f"cd lean && lake build SigmaVerif.Props.{run.prop} SigmaVerif.Oblig.{run.prop} && lake env lean ../.work/Audit_{run.prop}.lean",
+        "checker_cmd": f"cd lean && lake build SigmaVerif.Props.{run.prop} SigmaVerif.Oblig.{run.prop} && lake env lean ../.work/Audit_{run.prop}.lean"
+                       + (f" && lake env leanchecker SigmaVerif.Props.{run.prop} SigmaVerif.Oblig.{run.prop}" if run.tier == "thorough" else ""),
         "trusted_base": TRUSTED_BASE,
         "theorems": {n: b.theorems.get(n, ["<not built>"]) for n in b.expected},
         "partial": [n for n in b.expected if n.endswith("_partial")],
